@@ -150,7 +150,11 @@ func guard(s *cases.Set, name string, in []byte, f func(b []byte)) {
 			defer release()
 			defer func() {
 				if r := recover(); r != nil {
-					if e, ok := r.(runtime.Error); ok && strings.Contains(e.Error(), "fault") {
+					// a fault at a known address (runtime's panicmemAddr): with SetPanicOnFault the write to the PROT_READ page ends here
+					if e, ok := r.(runtime.Error); ok && func() bool {
+						_, hasAddr := r.(interface{ Addr() uintptr })
+						return hasAddr || strings.Contains(e.Error(), "fault")
+					}() {
 						s.Fail(cases.GoFail{Key: fmt.Sprintf("writes-input:%s:%x", name, in), What: name + " writes to its input buffer (fault on a read-only page): " + e.Error(),
 							Replay: map[string]interface{}{"entry": name, "input": fmt.Sprintf("%x", in), "how": "input placed in a PROT_READ page"}})
 					}
@@ -681,6 +685,44 @@ func main() {
 		}
 	}
 	s.Extra["non_ascii_text_probes"] = nText
+	// well-formed commands (every CID with every payload length 0..12, both directions) through the single-command
+	// and stream decoders: these reach the payload decoders behind the length checks, on read-only input pages
+	nWF := 0
+	for cid := 0; cid < 256; cid++ {
+		if cid >= 0x20 && cid < 0x80 && cid%16 != 0 {
+			continue
+		}
+		for k := 0; k <= 12; k++ {
+			unit := append([]byte{byte(cid)}, r.Bytes(k)...)
+			for j := range unit[1:] {
+				if unit[1+j] == 0 {
+					unit[1+j] = 0x52
+				}
+			}
+			two := append(append([]byte{}, unit...), unit...)
+			for _, u := range []bool{false, true} {
+				u := u
+				guard(s, "MACCommand.UnmarshalBinary", unit, func(x []byte) { var mc lorawan.MACCommand; _ = mc.UnmarshalBinary(u, x) })
+				guard(s, "DecodeFRMPayloadToMACCommands", two, func(x []byte) {
+					port := uint8(0)
+					phy := lorawan.PHYPayload{MHDR: lorawan.MHDR{MType: mtype(u)}, MACPayload: &lorawan.MACPayload{FPort: &port, FRMPayload: []lorawan.Payload{&lorawan.DataPayload{Bytes: x}}}}
+					_ = phy.DecodeFRMPayloadToMACCommands()
+				})
+				if cid < 16 {
+					guard(s, "clocksync.Command", unit, func(x []byte) { var c clocksync.Command; _ = c.UnmarshalBinary(u, x) })
+					guard(s, "multicastsetup.Command", unit, func(x []byte) { var c multicastsetup.Command; _ = c.UnmarshalBinary(u, x) })
+					guard(s, "fragmentation.Command", unit, func(x []byte) { var c fragmentation.Command; _ = c.UnmarshalBinary(u, x) })
+					guard(s, "firmwaremanagement.Command", unit, func(x []byte) { var c firmwaremanagement.Command; _ = c.UnmarshalBinary(u, x) })
+					guard(s, "clocksync.Commands", two, func(x []byte) { var c clocksync.Commands; _ = c.UnmarshalBinary(u, x) })
+					guard(s, "multicastsetup.Commands", two, func(x []byte) { var c multicastsetup.Commands; _ = c.UnmarshalBinary(u, x) })
+					guard(s, "fragmentation.Commands", two, func(x []byte) { var c fragmentation.Commands; _ = c.UnmarshalBinary(u, x) })
+					guard(s, "firmwaremanagement.Commands", two, func(x []byte) { var c firmwaremanagement.Commands; _ = c.UnmarshalBinary(u, x) })
+				}
+				nWF++
+			}
+		}
+	}
+	s.Extra["well_formed_command_probes"] = nWF
 	scaling(s, thorough)
 	if err := s.Finish(); err != nil {
 		fmt.Fprintln(os.Stderr, err)
